@@ -340,6 +340,14 @@ func makeHTTPSURL(u *url.URL, addr string) (httpsURL url.URL) {
 func (f *destinationTripper) RoundTrip(r *http.Request) (*http.Response, error) {
 	var err error
 	serverName := spec.ServerName(r.URL.Host)
+	// A RoundTripper must not modify the request it is given. net/http hands
+	// a client without a timeout its caller's own request, and works the
+	// target of a redirect out from it: with the connection target written
+	// into it, the redirected request took that target for the server name.
+	// The URL and the Host header are set on a copy instead.
+	original := r
+	r = new(http.Request)
+	*r = *original
 	resolutionRetried := false
 	resolutionResults := []ResolutionResult{}
 
